@@ -265,13 +265,13 @@ def known_match(entry, case, fail):
 
 def subchecks(ctx):
     return [
-        Sub("type-vs-aligned", case_a(), prop_a, {"quick": 300, "thorough": 6000}, nontrivial=nontrivial,
+        Sub("type-vs-aligned", case_a(), prop_a, {"quick": 600, "thorough": 6000}, nontrivial=nontrivial,
             classes=classes, known_match=known_match,
             rule="type I/II/X/Y model vs aligned model with the corresponding zeta_f; all a_mu and 12 Yukawa getters"),
-        Sub("aligned-vs-general", case_b(), prop_b, {"quick": 300, "thorough": 6000}, nontrivial=nontrivial,
+        Sub("aligned-vs-general", case_b(), prop_b, {"quick": 600, "thorough": 6000}, nontrivial=nontrivial,
             classes=classes, known_match=known_match,
             rule="aligned(zeta, Delta) vs general(Pi) encoding the same couplings, running off; 1L, fermionic 2L, getters"),
-        Sub("ignored", case_c(), prop_c, {"quick": 300, "thorough": 6000}, nontrivial=nontrivial,
+        Sub("ignored", case_c(), prop_c, {"quick": 600, "thorough": 6000}, nontrivial=nontrivial,
             classes=classes, known_match=known_match,
             rule="twins differing only in a parameter documented as ignored for the type; bit-identical results"),
     ]
